@@ -137,6 +137,20 @@ pub fn dispatch(ctx: &mut Ctx, op: &str, call: &Value) -> Option<Value> {
                 Some(_) => out::unsupported(),
             }
         }
+        // for_each on a copy: the offsets of everything the iterator still visits
+        "for_each" => {
+            let id = out::arg_u64(call, "it");
+            let base = ctx.base as usize as i128;
+            let mut v: Vec<i64> = Vec::new();
+            match ctx.its.get(&id) {
+                None => return Some(out::skipped()),
+                Some(It::Tags(it)) => it.clone().for_each(|t| v.push(out::clamp((t as *const multiboot2::DynSizedStructure<multiboot2::TagHeader>).cast::<u8>() as usize as i128 - base))),
+                Some(It::HTags(it)) => it.clone().for_each(|t| v.push(out::clamp((t as *const multiboot2_common::DynSizedStructure<multiboot2_header::HeaderTagHeader>).cast::<u8>() as usize as i128 - base))),
+                Some(It::Mods(it)) => it.clone().for_each(|t| v.push(out::clamp((t as *const multiboot2::ModuleTag).cast::<u8>() as usize as i128 - base))),
+                Some(_) => return Some(out::unsupported()),
+            }
+            json!({"k": "list", "v": v})
+        }
         "count" => {
             let id = out::arg_u64(call, "it");
             match ctx.its.get(&id) {
